@@ -771,7 +771,10 @@ def plan(tier, seed):
     else:
         kinds = {"rand-em": 120000, "rand-tc": 30000, "rand-tr": 30000}
         per = 4000
-    return out + common.shards(kinds, per_shard=per, tier=tier, seed=seed)
+    _out = out + common.shards(kinds, per_shard=per, tier=tier, seed=seed)
+    if tier == "thorough":
+        _out = _out + [common.suite_shard(ID, tier, seed)]  # the repository's own tests under this monitor
+    return _out
 
 
 def nth_sequence(n, nops, L):
@@ -866,6 +869,9 @@ def sentinels(rec):
 
 
 def run_shard(spec, rec):
+    if spec["kind"] == "suite":
+        common.run_suite(ID, rec)
+        return
     from droplets import droplet_tracks, emulsions
 
     install_invariants(rec)
